@@ -109,3 +109,43 @@ __CPROVER_ensures((!optv_nl_squeeze_ifdef && optv_eat_blanks_before_close_brace 
 /* no blank line after '{' (a '}' that follows directly is governed by the clause above when eat_blanks_before_close_brace is set) */
 __CPROVER_ensures((!optv_nl_squeeze_ifdef && optv_eat_blanks_after_open_brace && T_(PREVNC) == CT_BRACE_OPEN_V && !NS_OVERRIDE_OPEN && !NS_OVERRIDE_CLOSE && !EMPTY_FUNC_OVERRIDE) ==> !__CPROVER_return_value)
 ;
+
+#ifdef DBL_VC
+/* ---- one iteration of do_blank_lines() as a direct verification condition (C20-K4), from the statement of C20: "With nl_max=N>0
+ * the output contains no run of more than N consecutive line breaks ..., provided no other blank-line count option asks for more
+ * than N".  The newline chunk handled by the iteration is an arbitrary chunk `pc` of the list; every neighbour query returns an
+ * arbitrary chunk.  The first / last newline of the file carries one extra line break during the iteration (line_added), which the
+ * iteration removes again - except on the forced-to-one path, where the count is exactly 1. ---- */
+extern struct Chunk *const P0, *const P1, *const P2, *const PN;
+extern const unsigned CT_NEWLINE_V, CT_IGNORED_V;
+extern unsigned g_nav_fuel;
+extern _Bool g_cinl, g_have_first;
+extern struct Chunk *g_first_prevnc;
+void do_blank_lines_iteration(struct Chunk *pc);
+void h_do_blank_lines_iteration(void)
+{
+   struct Chunk *pc = P0;
+   __CPROVER_havoc_object(P0);        /* the whole pool: every attribute of every chunk is arbitrary */
+   __CPROVER_havoc_object(PN);
+   Chunk_m_nullChunk(P0) = 0; Chunk_m_nullChunk(P1) = 0; Chunk_m_nullChunk(P2) = 0; Chunk_m_nullChunk(PN) = 1;
+   size_t old_nl = Chunk_m_nlCount(pc);
+   g_have_first = 0;
+   g_cinl = 1;
+   /* the property's premise: nl_max = N > 0 and no other count option asks for more (the set the option documentation defines,
+    * generated from options.h - the same set too_big_for_nl_max is proved to enforce) */
+   __CPROVER_assume(optv_nl_max > 0 && OPT_RANGE_nl_max && NL_COUNT_ALL_OK);
+   __CPROVER_assume(old_nl >= 1 && old_nl < (1UL << 40) && g_nav_fuel <= 4 && CPD(changes) >= 0 && CPD(changes) < 1000000);
+   __CPROVER_assume(Chunk_m_type(pc) == CT_NEWLINE_V);
+   do_blank_lines_iteration(pc);
+   /* the cap: whatever the input had, at most N line breaks remain (a newline right after disabled-region text is left alone:
+    * the first early `continue`; it is the only way out with a larger count) */
+#define AFTER_IGNORED (g_have_first && !Chunk_m_nullChunk(g_first_prevnc) && Chunk_m_type(g_first_prevnc) == CT_IGNORED_V)
+   __CPROVER_assert(AFTER_IGNORED ? Chunk_m_nlCount(pc) == old_nl : Chunk_m_nlCount(pc) <= optv_nl_max, "postcondition: do_blank_lines nl_count <= nl_max (a newline right after disabled-region text is left alone)");
+   __CPROVER_assert(Chunk_m_nlCount(pc) >= 1, "postcondition: do_blank_lines a newline chunk keeps at least one line break");
+   /* where can_increase_nl() says no (eat_blanks_* next to a brace, see its contract) the chunk is forced to exactly one line break */
+   __CPROVER_assert(g_cinl || Chunk_m_nlCount(pc) == 1, "postcondition: do_blank_lines forces one line break where the count may not grow");
+   if (Chunk_m_nlCount(pc) > optv_nl_max) { __CPROVER_assert(0, "VACUITY_CANARY do_blank_lines: untouched newline (after ignored text)"); }
+   if (Chunk_m_nlCount(pc) == optv_nl_max && old_nl > optv_nl_max) { __CPROVER_assert(0, "VACUITY_CANARY do_blank_lines: capped"); }
+   if (Chunk_m_nlCount(pc) > old_nl) { __CPROVER_assert(0, "VACUITY_CANARY do_blank_lines: raised by a count option"); }
+}
+#endif
